@@ -97,12 +97,22 @@ _E1 = {
             "all seven algorithms executed in a drawn order on one shared input object; relations "
             "between independently recounted optima"),
 }
+_E1_BUDGET = {  # (batches, examples per batch) for quick / thorough
+    "C01": ((64, 400), (640, 800)),
+    "C02": ((64, 70), (640, 200)),
+    "C03": ((64, 150), (640, 300)),
+    "C04": ((64, 100), (640, 200)),
+    "C05": ((64, 300), (640, 500)),
+    "C08": ((64, 100), (640, 200)),
+    "C09": ((48, 40), (480, 80)),
+    "C10": ((64, 250), (640, 500)),
+}
 for _pid, (_title, _tech) in _E1.items():
     PROPS[_pid] = {
         "id": _pid,
         "engine": e1_solver,
-        "quick": _budget(32, 30, 75),
-        "thorough": _budget(400, 60, 900),
+        "quick": _budget(*_E1_BUDGET[_pid][0], 75),
+        "thorough": _budget(*_E1_BUDGET[_pid][1], 1500),
         "technique": "deterministic simulation: " + _tech,
         "level_text": _title + ": seeded search over inputs, operation histories, set iteration "
                       "orders, generator interleavings and cancellation faults; each operation is "
